@@ -28,6 +28,10 @@ func backtrackCases(c *ctx, n int, nIn int, probes bool, inline bool) []*gcase {
 			// wide choices (also under & and !): the shapes peg's -switch rewrites
 			g = gram.ChoiceHeavy(r)
 			alpha = append([]rune("abcdefgz"), g.Runes()...)
+		} else if i%8 == 1 {
+			// an operator table: overlapping alternatives whose order is their meaning, each with its own action
+			g = gram.Operators(r)
+			alpha = append([]rune(" 09af"), g.Runes()...)
 		} else if i%4 == 3 {
 			p := gram.AllOps()
 			p.WCapture, p.WAction, p.WAnd, p.WNot, p.LRef, p.MinRules = 4, 4, 3, 3, 8, 2
